@@ -182,7 +182,9 @@ theorem commit_options (sh : Shared D L) :
     split
     · rename_i sh1 hq
       split at hq
-      · exact (autoLearn_options env { sh with commitBuf := [] } ivs).elim hq
+      · have := (autoLearn_options env { sh with commitBuf := [] } ivs).elim hq
+        show sh1.options = sh.options
+        rw [this]
       · cases hq; rfl
     · trivial
     · trivial
@@ -313,7 +315,7 @@ theorem ostep_syllableAnswer (sh : Shared D L) (beh : LayoutBeh) : OStep sh (syl
     dsimp only
     split
     · intro sh' t hh
-      exact ostep_newPhraseSimple _ sh' t hh
+      exact ostep_newPhraseSimple { sh with com := c, syl := env.clearSyl (env.clearSyl sh.syl) } sh' t hh
     · ostep_leaf
 
 /-- **`EnteringSyllable::next`**: only the CapsLock arm changes the options -/
@@ -416,38 +418,46 @@ theorem osel_selDigit (s : Selecting) (sh : Shared D L) (c : Nat) : OSel sh (sel
   · exact osel_panic _ _
   · exact osel_fuel _
 
+theorem osel_ite {sh0 : Shared D L} {c : Prop} [Decidable c] {a b : Outcome (SelRes D L)}
+    (h1 : OSel sh0 a) (h2 : OSel sh0 b) : OSel sh0 (if c then a else b) := by
+  split <;> assumption
+
+/-- what a `Selecting` step did to the options: nothing, or the language toggle -/
+def OSelEff (sh0 : Shared D L) (lang : Prop) (r : Outcome (SelRes D L)) : Prop :=
+  ∀ x, r = .ok x → x.shared.options = sh0.options ∨ (lang ∧ x.shared.options = (Shared.switchLanguageMode sh0).options)
+
+theorem oseleff_of_osel {sh0 : Shared D L} {lang : Prop} {r : Outcome (SelRes D L)} (h : OSel sh0 r) :
+    OSelEff sh0 lang r := fun x hr => Or.inl (h x hr)
+
+theorem oseleff_ite {sh0 : Shared D L} {lang : Prop} {c : Prop} [Decidable c] {a b : Outcome (SelRes D L)}
+    (h1 : c → OSelEff sh0 lang a) (h2 : ¬ c → OSelEff sh0 lang b) : OSelEff sh0 lang (if c then a else b) := by
+  split
+  · next hc => exact h1 hc
+  · next hc => exact h2 hc
+
 /-- **`Selecting::next`**: only the CapsLock arm changes the options (and Shift / Ctrl combinations are
     answered with a bell before anything else) -/
 theorem selectingNext_options (s : Selecting) (sh : Shared D L) (ev : KeyEvent) :
-    ∀ x, selectingNext env s sh ev = .ok x →
-      x.shared.options = sh.options ∨
-      ((ev.code = KC.unknown ∧ ev.mods.capslock = true ∧ ev.mods.ctrl = false ∧ ev.mods.shift = false) ∧
-        x.shared.options = (Shared.switchLanguageMode sh).options) := by
+    OSelEff sh (ev.code = KC.unknown ∧ ev.mods.capslock = true ∧ ev.mods.ctrl = false ∧ ev.mods.shift = false)
+      (selectingNext env s sh ev) := by
   unfold selectingNext
-  intro x h
-  split at h
-  · left; exact (by osel_leaf : OSel sh _) x h
-  · next hm =>
-    split at h
-    · left; exact (by osel_leaf : OSel sh _) x h
-    · next hc =>
-      split at h
-      · right
-        injection h with h; subst h
-        refine ⟨?_, rfl⟩
-        simp only [Bool.or_eq_true, not_or, Bool.not_eq_true] at hm
-        simp only [Bool.and_eq_true, beq_iff_eq] at *
-        rename_i hcaps
-        exact ⟨hcaps.1, hcaps.2, hm.1, hm.2⟩
-      · left
-        repeat' split at h
-        all_goals first
-          | exact (by osel_leaf : OSel sh _) x h
-          | exact osel_selDownSpace env _ _ x h
-          | exact osel_selMove env _ _ _ x h
-          | exact osel_selPrevPage env _ _ x h
-          | exact osel_selNextPage env _ _ x h
-          | exact osel_selDigit env _ _ _ x h
+  refine oseleff_ite (fun _ => oseleff_of_osel (by osel_leaf)) fun hm => ?_
+  refine oseleff_ite (fun _ => oseleff_of_osel (by osel_leaf)) fun _ => ?_
+  refine oseleff_ite (fun hc => ?_) fun _ => ?_
+  · intro x h; injection h with h; subst h
+    right
+    simp only [Bool.or_eq_true, not_or, Bool.not_eq_true] at hm
+    simp only [Bool.and_eq_true, beq_iff_eq] at hc
+    exact ⟨⟨hc.1, hc.2, hm.1, hm.2⟩, rfl⟩
+  · refine oseleff_of_osel ?_
+    repeat' (with_reducible apply osel_ite)
+    all_goals first
+      | exact osel_selDownSpace env _ _
+      | exact osel_selMove env _ _ _
+      | exact osel_selPrevPage env _ _
+      | exact osel_selNextPage env _ _
+      | exact osel_selDigit env _ _ _
+      | osel_leaf
 
 /-- **`Highlighting::next`**: only the CapsLock arm changes the options -/
 theorem highlightingNext_options (m : Nat) (sh : Shared D L) (ev : KeyEvent) :
@@ -463,15 +473,18 @@ theorem highlightingNext_options (m : Nat) (sh : Shared D L) (ev : KeyEvent) :
     injection h with h; subst h
     exact ⟨by simpa using hc, rfl⟩
   · left
-    repeat' (first | split at h | (dsimp only at h; split at h))
-    all_goals first
-      | (injection h with h; subst h; rfl)
-      | cases h
-      | skip
-    all_goals
-      rename_i sh' b hq
-      have := (learnInRangeNotify_options env _ _ _).elim hq
-      injection h with h; subst h
-      exact this
+    split at h
+    · injection h with h; subst h; rfl
+    · split at h
+      · injection h with h; subst h; rfl
+      · split at h
+        · split at h
+          · rename_i sh' b hq
+            have := (learnInRangeNotify_options env _ _ _).elim hq
+            injection h with h; subst h
+            exact this
+          · cases h
+          · cases h
+        · injection h with h; subst h; rfl
 
 end Chewing
